@@ -39,6 +39,18 @@ func jsonText(v interface{}) string {
 	return string(b)
 }
 
+// keyedView: the list without its list-level directive elements ("- $patch: replace" and the like), which carry no key
+func keyedView(g *g4) *g4 {
+	h := &g4{kind: 2}
+	for _, e := range g.vals {
+		if e.kind == 1 && len(e.keys) == 1 && e.keys[0] == "$patch" {
+			continue
+		}
+		h.vals = append(h.vals, e)
+	}
+	return h
+}
+
 // uniqueKeyTuples: every list of mappings that looks keyed has pairwise different (key, protocol) tuples.
 func uniqueKeyTuples(g *g4) bool {
 	if g == nil {
@@ -56,14 +68,18 @@ func uniqueKeyTuples(g *g4) bool {
 				texts[t] = true
 			}
 		}
-		if k := listKeyOf(g); k != "" {
+		kvw := keyedView(g)
+		if k := listKeyOf(kvw); k != "" {
+			g := kvw
 			seen := map[string]bool{}
 			for _, e := range g.vals {
 				t := e.get(k).text
-				if pr := e.get("protocol"); pr != nil && (k == "containerPort" || k == "port") {
-					t += "/" + pr.text
-				} else if k == "containerPort" || k == "port" {
-					t += "/"
+				if sk := secondaryKey(k); sk != "" {
+					if pr := e.get(sk); pr != nil {
+						t += "/" + pr.text
+					} else {
+						t += "/"
+					}
 				}
 				if seen[t] {
 					return false
@@ -71,13 +87,13 @@ func uniqueKeyTuples(g *g4) bool {
 				seen[t] = true
 			}
 			// a tuple with and one without protocol for the same port are merged by mergeValues: ambiguous
-			if k == "containerPort" || k == "port" {
+			if sk := secondaryKey(k); sk != "" {
 				ports := map[string]int{}
 				for _, e := range g.vals {
 					ports[e.get(k).text]++
 				}
 				for _, e := range g.vals {
-					if e.get("protocol") == nil && ports[e.get(k).text] > 1 {
+					if e.get(sk) == nil && ports[e.get(k).text] > 1 {
 						return false
 					}
 				}
@@ -98,9 +114,9 @@ func uniqueFirstKeys(g *g4) bool {
 		return true
 	}
 	if g.kind == 2 {
-		if k := listKeyOf(g); k == "containerPort" || k == "port" {
+		if k := listKeyOf(keyedView(g)); secondaryKey(k) != "" {
 			seen := map[string]bool{}
-			for _, e := range g.vals {
+			for _, e := range keyedView(g).vals {
 				t := e.get(k).text
 				if seen[t] {
 					return false
@@ -161,6 +177,9 @@ func laws04(c case04, domain string) []law04 {
 							shape += "-inferred-keys"
 						}
 					}
+					if partial, _ := tupleRelationOf(c); partial && (domain == "M" || domain == "") {
+						shape = "composite-key-partial-tuple"
+					}
 					out = append(out, law04{"idempotent", "C04/idempotent/" + shape,
 						fmt.Sprintf("once: %s twice: %s", jsonText(j1), jsonText(j2))})
 				}
@@ -170,6 +189,17 @@ func laws04(c case04, domain string) []law04 {
 	// ---- reference: merge(p, t) ~ k8s strategicpatch(p, t), up to the order of keyed-list elements ----
 	if domain != "Dnull" && !c.Infer && (c.RefDom || domain == "" || domain == "A") {
 		if v := reference04(c, j1); v != nil {
+			if partial, _ := tupleRelationOf(c); partial && (domain == "M" || domain == "") &&
+				!strings.HasPrefix(v.Class, "C04/reference/reference-rejects:") {
+				// a port that one side writes with and the other without its protocol: the two key tuples are merged
+				// by mergeValues, but the element is then looked up with the full tuple in both lists and not found
+				// on the side that omits the protocol -- the patch for that port is ignored (or, in append mode,
+				// added as a second element)
+				v.Class = "C04/reference/composite-key-partial-tuple-ignored"
+			} else if (domain == "M" || domain == "") && deleteIgnoredMixedOf(c) &&
+				!strings.HasPrefix(v.Class, "C04/reference/reference-rejects:") {
+				v.Class = "C04/reference/composite-key-delete-ignored-when-protocol-spelled-elsewhere"
+			}
 			// outside D the reference may simply be stricter (it rejects what kustomize accepts): not a law failure
 			if !(domain == "A" && strings.HasPrefix(v.Class, "C04/reference/reference-rejects:")) {
 				out = append(out, *v)
@@ -179,7 +209,7 @@ func laws04(c case04, domain string) []law04 {
 	// ---- frame: what the patch does not mention is unchanged ----
 	t0, err1 := kyaml.Parse(c.Target)
 	p0, err2 := kyaml.Parse(c.Patch)
-	if err1 == nil && err2 == nil && domain != "A" {
+	if err1 == nil && err2 == nil && domain != "A" && domain != "M" {
 		jt, e1 := toJSONValue(t0)
 		jp, e2 := toJSONValue(p0)
 		if e1 == nil && e2 == nil {
@@ -640,4 +670,171 @@ func hasElemReplaceDirective(v interface{}) bool {
 		}
 	}
 	return false
+}
+
+// ---------- composite merge keys (container ports, Service ports: containerPort|port + protocol) ----------
+
+func jsonListKey(l []interface{}) string {
+	for _, k := range []string{"containerPort", "port", "topologyKey", "mountPath", "name", "key"} {
+		all := len(l) > 0
+		for _, e := range l {
+			m, ok := e.(map[string]interface{})
+			if !ok {
+				all = false
+				break
+			}
+			if _, dir := m["$patch"]; dir && len(m) == 1 {
+				continue // list-level directive element
+			}
+			if _, has := m[k]; !has {
+				all = false
+			}
+		}
+		if all {
+			return k
+		}
+	}
+	return ""
+}
+
+// tupleRelation walks target and patch in parallel and looks at port lists addressed by the patch:
+// partial: some port is in both lists and exactly one side spells the secondary key (protocol);
+// conflict: both spell it (or the patch nulls it) and the values differ -- with a composite key these are
+// two different elements, with the reference's single key they are one.
+func tupleRelation(t, p interface{}, partial, conflict *bool) {
+	switch pv := p.(type) {
+	case map[string]interface{}:
+		tv, ok := t.(map[string]interface{})
+		if !ok {
+			return
+		}
+		for k, x := range pv {
+			if y, has := tv[k]; has {
+				tupleRelation(y, x, partial, conflict)
+			}
+		}
+	case []interface{}:
+		tv, ok := t.([]interface{})
+		if !ok {
+			return
+		}
+		k := jsonListKey(pv)
+		if k == "" || jsonListKey(tv) != k {
+			return
+		}
+		for _, pe := range pv {
+			pm := pe.(map[string]interface{})
+			for _, te := range tv {
+				tm := te.(map[string]interface{})
+				if fmt.Sprint(tm[k]) != fmt.Sprint(pm[k]) {
+					continue
+				}
+				if sk := secondaryKey(k); sk != "" {
+					tp, th := tm[sk]
+					pp, ph := pm[sk]
+					switch {
+					case th != ph:
+						*partial = true
+					case th && ph && (pp == nil || fmt.Sprint(tp) != fmt.Sprint(pp)):
+						*conflict = true
+					}
+				} else {
+					tupleRelation(tm, pm, partial, conflict)
+				}
+			}
+		}
+	}
+}
+
+func tupleRelationOf(c case04) (partial, conflict bool) {
+	t0, err1 := kyaml.Parse(c.Target)
+	p0, err2 := kyaml.Parse(c.Patch)
+	if err1 != nil || err2 != nil {
+		return
+	}
+	jt, e1 := toJSONValue(t0)
+	jp, e2 := toJSONValue(p0)
+	if e1 != nil || e2 != nil {
+		return
+	}
+	tupleRelation(jt, jp, &partial, &conflict)
+	return
+}
+
+// deleteIgnoredMixed: the patch deletes ("$patch: delete") a port that neither it nor the target writes with a protocol,
+// while another element of the target's or the patch's list does write one. validateKeys then keeps "protocol" among
+// the valid keys for every tuple of the list, the deletion asks ElementSetter for an element that HAS a protocol field,
+// finds none, and the port stays.
+func deleteIgnoredMixed(t, p interface{}) bool {
+	switch pv := p.(type) {
+	case map[string]interface{}:
+		tv, ok := t.(map[string]interface{})
+		if !ok {
+			return false
+		}
+		for k, x := range pv {
+			if y, has := tv[k]; has && deleteIgnoredMixed(y, x) {
+				return true
+			}
+		}
+	case []interface{}:
+		tv, ok := t.([]interface{})
+		if !ok {
+			return false
+		}
+		k := jsonListKey(pv)
+		if k == "" || jsonListKey(tv) != k {
+			return false
+		}
+		if sk := secondaryKey(k); sk != "" {
+			spelled := false
+			for _, l := range [][]interface{}{tv, pv} {
+				for _, e := range l {
+					if _, has := e.(map[string]interface{})[sk]; has {
+						spelled = true
+					}
+				}
+			}
+			if !spelled {
+				return false
+			}
+			for _, pe := range pv {
+				pm := pe.(map[string]interface{})
+				if _, has := pm[sk]; has || directiveOf(pm) != "delete" {
+					continue
+				}
+				for _, te := range tv {
+					tm := te.(map[string]interface{})
+					if _, has := tm[sk]; !has && fmt.Sprint(tm[k]) == fmt.Sprint(pm[k]) {
+						return true
+					}
+				}
+			}
+			return false
+		}
+		for _, pe := range pv {
+			pm := pe.(map[string]interface{})
+			for _, te := range tv {
+				tm := te.(map[string]interface{})
+				if fmt.Sprint(tm[k]) == fmt.Sprint(pm[k]) && deleteIgnoredMixed(tm, pm) {
+					return true
+				}
+			}
+		}
+	}
+	return false
+}
+
+func deleteIgnoredMixedOf(c case04) bool {
+	t0, err1 := kyaml.Parse(c.Target)
+	p0, err2 := kyaml.Parse(c.Patch)
+	if err1 != nil || err2 != nil {
+		return false
+	}
+	jt, e1 := toJSONValue(t0)
+	jp, e2 := toJSONValue(p0)
+	if e1 != nil || e2 != nil {
+		return false
+	}
+	return deleteIgnoredMixed(jt, jp)
 }
